@@ -186,6 +186,12 @@ def _scenarios():
                {"push_data": {"O1": "DATA", "O2": "DATA"}}))
     sc.append(("out-later-start-then-static-with-consumer-time", {}, {"O1": (True, True, False, "later", {"info": [OK]}), "O2": (True, True, True, "same", {"info": [OK]})}, [],
                {"push_data": {"O1": "DATA", "O2": "DATA"}}))
+    # the documented pattern "offer what `*_required` asks for", with and without caching, against peers that answer late
+    for cache in (True, False):
+        sc.append((f"in-given-when-required:cache={cache}", {"A": (False, {"exchange_info": [FAIL, FAIL, OK]})}, {}, [],
+                   {"exchange_infos@required": {"A": "GIVEN"}}, {"cache": cache}))
+        sc.append((f"out-offered-when-required:cache={cache}", {}, {"O": (False, True, False, "same", {"info": [FAIL, FAIL, OK]})}, [],
+                   {"push_infos@required": {"O": "GIVEN"}, "push_data@required": {"O": "DATA"}}, {"cache": cache}))
     # never completing peer
     sc.append(("stuck", {"A": (True, {"exchange_info": [FAIL]})}, {}, ["A"], {}))
     # data for the output arrives only in a later call
@@ -198,13 +204,14 @@ def r11_r12_connect(repo, sink):
     f = repo.resolve(c, "connect", "method")
     start, later = Sym("t0"), Sym("t1")
     n_calls = 0
-    for name, ins, outs, pull, args in _scenarios():
+    for name, ins, outs, pull, args, *opts in _scenarios():
+        opts = opts[0] if opts else {}
         it = _CH(repo)
         it.order.name(start, "t0", 0)
         it.order.name(later, "t1", 1)
         outs2 = {n: (h, p, s, start if t == "same" else None if t == "none" else later, sc) for n, (h, p, s, t, sc) in outs.items()}
         try:
-            me, inputs, outputs = _build(repo, it, ins, outs2, pull, start)
+            me, inputs, outputs = _build(repo, it, ins, outs2, pull, start, cache=opts.get("cache", True))
         except (Raised, Undecided) as exc:
             sink.unknown("R11", f"connect:{name}", f, f"ConnectHelper.__init__ not in vocabulary: {exc}")
             continue
@@ -214,6 +221,13 @@ def r11_r12_connect(repo, sink):
             kw = {}
             for key, val in args.items():
                 base, _, at = key.partition("@")
+                if at == "required":
+                    # the documented pattern: offer what the helper's public `*_required` property asks for
+                    prop = {"exchange_infos": "in_infos_required", "push_infos": "out_infos_required", "push_data": "data_required"}[base]
+                    g = repo.resolve(me.cls, prop, "getter")
+                    need = FinamInterp(repo).run(g, [], self_obj=me) if g is not None else {}
+                    kw[base] = {n: (_mk_info("given", start) if v == "GIVEN" else Sym("payload", n)) for n, v in val.items() if need.get(n)}
+                    continue
                 if at == "*" or (at and int(at) == k) or (not at and k == 1):
                     kw[base] = {n: (_mk_info("given", start) if v == "GIVEN" else Sym("payload", n)) for n, v in val.items()}
             before = _state(me, repo)
@@ -243,7 +257,18 @@ def r11_r12_connect(repo, sink):
                 why = f"call {k}: nothing new was exchanged but status is {st}"
             # liveness: an output whose info exchange is complete and whose data was handed over is published in this very call
             if why is None:
-                given = {n2 for key, val in args.items() if key.partition("@")[0] == "push_data" and (key.partition("@")[2] == "*" or int(key.partition("@")[2] or 1) <= k) for n2 in val}
+                given = {n2 for key, val in args.items() if key.partition("@")[0] == "push_data" and (key.partition("@")[2] in ("*", "required") or int(key.partition("@")[2] or 1) <= k) for n2 in val}
+                # a component that offers exactly what the helper says it still requires: every outstanding exchange is attempted in
+                # every call (an idle call makes the composition report a circular coupling that does not exist)
+                if any(key.endswith("@required") for key in args) and not complete:
+                    for n2, (own, _sc) in ins.items():
+                        if not own and before["in_infos"].get(n2) is None and not any(a[0] == n2 and a[1] == "exchange_info" for a in it.attempts):
+                            why = (f"call {k}: the info exchange of input {n2} is outstanding and the component offers its info whenever `in_infos_required` asks "
+                                   "for it, but no exchange is attempted in this call (the property answers from state left over from the previous call)")
+                    for n2 in outs:
+                        if "push_data@required" in args and after["out_infos"].get(n2) is not None and after["infos_pushed"].get(n2) and not after["data_pushed"].get(n2):
+                            why = why or (f"call {k}: output {n2} has completed its info exchange and the component offers its data whenever `data_required` asks for "
+                                          "it, but the data is not published in this call (the property answers from state left over from the previous call)")
                 for n2 in given:
                     if after["out_infos"].get(n2) is not None and after["infos_pushed"].get(n2) and not after["data_pushed"].get(n2):
                         why = (f"call {k}: output {n2} has completed its info exchange and was given its initial data, but the data was not published "
